@@ -60,7 +60,8 @@ def gen_eval(tier, R):
                     case(f"(ter {o} {a} {m} {c})")
     # arithmetic and comparison on numbers of both signs: whole, fractional, tiny, huge, signed zeros, non-finite - all pairs (sign rules of div / mod,
     # rounding direction, cancellation), plus numeric strings of both signs against numbers for the comparison and equality operators
-    signed = [0.0, -0.0, 1.0, -1.0, 2.0, -2.0, 3.0, -3.0, 0.5, -0.5, 7.0, -7.0, 7.5, -7.5, 2.5, -2.5, 10.0, -10.0, 0.1, -0.1, 6.0, -6.0, 1e16, -1e16, 2.0**53, -(2.0**53), 5e-324, -5e-324, 1e308, -1e308, INF, -INF, NAN]
+    signed = [0.0, -0.0, 1.0, -1.0, 2.0, -2.0, 3.0, -3.0, 0.5, -0.5, 7.0, -7.0, 7.5, -7.5, 2.5, -2.5, 10.0, -10.0, 0.1, -0.1, 6.0, -6.0, 1e16, -1e16, 2.0**53, -(2.0**53), 5e-324, -5e-324, 1e308, -1e308, INF, -INF, NAN,
+              2.0**31, -(2.0**31), 2.0**32, 2.0**63, -(2.0**63), 2.0**64, 0.30000000000000004, 0.3, 1e-17, -1e-17, 2.220446049250313e-16, 1.0000000000000002]   # integer-type boundaries; neighbours one ulp apart; values below every 'epsilon'
     if tier == 'thorough':
         signed += [R.choice([-1, 1]) * R.choice([R.uniform(0, 10), float(R.randint(0, 1000)), R.uniform(0, 1e-3), R.uniform(1e15, 1e17)]) for _ in range(60)]
     for o in ["plus", "minus", "multiply", "divide", "div", "mod", "greater", "greaterEqual", "less", "lessEqual", "equal", "notEqual"]:
@@ -143,6 +144,14 @@ def gen_boolcheck(tier, R):
         return "(arr " + " ".join(rnd(d-1) for _ in range(R.randint(0, 2))) + ")"
     for _ in range(4000 if tier == 'quick' else 300000):
         cases.append(rnd(R.randint(2, 5)))
+    # long chains of conditionals in result position with the one offending leaf at the very bottom (a validator that stops looking at some depth accepts them)
+    for d in ((3, 17, 64, 127, 128, 129, 130, 200, 300) if tier == 'quick' else (3, 17, 64, 127, 128, 129, 130, 200, 300, 600, 1000)):
+        for bad in (f"(lit {num(5.0)})", f"(lit {s('a')})", "(arr)", f"(bin plus (var {s('x')}) (lit {num(1.0)}))", f"(un minus (var {s('x')}))", "(lit (b 1))"):
+            for side in (0, 1):
+                e = bad
+                for _ in range(d):
+                    e = f"(ter ternaryCondition (var {s('f')}) (lit (b 1)) {e})" if side == 0 else f"(ter ternaryCondition (var {s('t')}) {e} (lit (b 0)))"
+                cases.append(e)
     return [f"(case _ {ENV_BASIC} {e})" for e in cases]
 
 
@@ -221,6 +230,25 @@ def gen_opt(tier, R, kind='opt'):
         for xv in (xb if tier == 'thorough' else R.sample(xb, 6)):
             binds = ([('x', xv)] if xv is not None else []) + [('y', R.choice(xb[:-1]))]
             out.append(f"({kind} _ {env(binds, OPT_FNS_S)} {e})")
+    # if_then / conditionals whose two branches are `=` to each other without being identical (1 / true, '5' / 5, 0 / -0, [1] / [true]): "both branches are the same" is not
+    eqb = [(num(1.0), b(True)), (b(True), num(1.0)), (num(0.0), b(False)), (s("5"), num(5.0)), (num(5.0), s("5")), (num(0.0), num(-0.0)), (num(-0.0), num(0.0)),
+           (f"(a {num(1.0)})", "(a (b 1))"), (s("1.0"), num(1.0)), (num(2.0), num(2.0))]
+    for l1, l2 in eqb:
+        for cond in (X, f"(bin less {X} {L(num(0.0))})", L(b(False)), f"(un not {X})"):
+            for wrap in (lambda e: e, lambda e: f"(call {s('echo')} {e})", lambda e: f"(bin plus (arr {e}) (arr))", lambda e: f"(call {s('if_then')} {Y} {e} {e})"):
+                for xv in (num(0.0), b(False), b(True), None):
+                    binds = ([('x', xv)] if xv is not None else []) + [('y', b(True))]
+                    out.append(f"({kind} _ {env(binds, OPT_FNS_S)} {wrap(f'(call {s(chr(105)+chr(102)+chr(95)+chr(116)+chr(104)+chr(101)+chr(110))} {cond} {L(l1)} {L(l2)})')})")
+                    out.append(f"({kind} _ {env(binds, OPT_FNS_S)} {wrap(f'(ter ternaryCondition {cond} {L(l1)} {L(l2)})')})")
+    # environments that do NOT provide if_then, or provide it with an arity that excludes three arguments: the validator must still look it up
+    no_if = [f_ for f_ in OPT_FNS_S if '105 102 95 116 104 101 110' not in f_]
+    if2 = no_if + [fn('if_then', '(ifthen)', '(poly 2 0)', 1)]
+    for fns_ in (no_if, if2):
+        for cnt in range(0, 5):
+            args = " ".join([X, L(num(1.0)), L(num(2.0)), L(num(3.0))][:cnt])
+            c_ = f"(call {s('if_then')} {args})"
+            for e in (c_, f"(bin plus {c_} {L(num(1.0))})", f"(arr {c_})", f"(call {s('echo')} {c_})"):
+                out.append(f"({kind} _ {env([('x', b(True))], fns_)} {e})")
     # deep constant nesting: a fold removes one level per pass, so the number of passes grows with the depth (a bound on passes, or a quadratic walk, shows here)
     def nest(d, wrap, leaf):
         e = leaf
@@ -234,6 +262,12 @@ def gen_opt(tier, R, kind='opt'):
         for w in wraps:
             for leaf in (L(num(5.0)), L(b(True)), X):
                 out.append(f"({kind} _ {env([('x', num(2.0))], OPT_FNS_S)} {nest(d, w, leaf)})")
+    # wide calls: a pure variadic function with 99, 100, 101, 150 and 300 literal arguments must fold like a narrow one
+    for cnt in (99, 100, 101, 150, 300):
+        args = " ".join(L(num(float(j % 9))) for j in range(cnt))
+        for fname in ('echo', 'imp', 'nofn'):
+            out.append(f"({kind} _ {env([('x', num(2.0))], OPT_FNS_S)} (call {s(fname)} {args}))")
+            out.append(f"({kind} _ {env([('x', num(2.0))], OPT_FNS_S)} (bin plus (arr (call {s(fname)} {args})) (arr {X})))")
     N = 12000 if tier == 'quick' else 500000
     i = 0
     while i < N:
@@ -271,6 +305,13 @@ def gen_illformed(tier, R):
             for m in L1[::3]:
                 for c in L1[::4]:
                     out.append(f"(ter {o} {a} {m} {c})")
+    # every operator over pairs of extreme numbers (integer-type boundaries and their neighbours, signed zeros, non-finite): no operand pair may panic
+    ext = [f"(lit {num(v)})" for v in (-(2.0**63), -1.0, 0.0, -0.0, 1.0, 2.0**63, 2.0**31, -(2.0**31), 2.0**32, 2.0**53, NAN, INF, -INF, 5e-324, 1e308, -1e308, 0.5, -(2.0**63) - 2048.0, 2.0**64)]
+    for o in OPS:
+        for a in ext:
+            out.append(f"(un {o} {a})")
+            for c in ext:
+                out.append(f"(bin {o} {a} {c})")
     # depth 2: operator over operator
     for o in OPS:
         for o2 in OPS:
